@@ -103,6 +103,10 @@ def prop(spec, rec):
     sim = h.sim
     require(sim.iteration == m.end and sim.event_queue.empty(), "run_completes", lambda: "iteration %r, model end %r" % (sim.iteration, m.end))
 
+    if spec.get("scribble_results"):
+        # the caller has post-processed the exported tables in place: the record stays what it was
+        sc.scribble_on_results(sim)
+        labels.add("exported_result_tables_edited_in_place")
     P = sim.pilot_signals
     M = m.overlay(algo.submitted, P.shape[1])
     require(P.shape[0] == len(m.station_ids) and P.shape[1] >= m.end, "pilot_matrix_shape", lambda: "shape %r, periods %d" % (P.shape, m.end))
@@ -201,6 +205,7 @@ def prop(spec, rec):
 @st.composite
 def cases(draw):
     spec = draw(sc.scenarios(scheduler="scripted", sched_max_len=6))
+    spec["scribble_results"] = draw(st.integers(0, 3)) == 0
     if draw(st.integers(0, 4)) == 0:
         m = sc.Model(spec)
         t = draw(st.sampled_from(m.invocations))
